@@ -186,7 +186,10 @@ def make_callable(fname, argnames, counter, raise_at, extra=None):
         if REENTER['fn'] is not None:
             REENTER['fn'](counter[0])
         return fn(*args)
-    if extra is not None:
+    if extra == 'kwonly' and len(argnames) >= 2:
+        # def f(a, *, b='DFLT'): the keyword-only parameter is named like a column and must be handed that column's cell
+        src = 'lambda %s, *, %s: body(%s)' % (argnames[0], ', '.join("%s='DFLT'" % a for a in argnames[1:]), ', '.join(argnames))
+    elif extra is not None and extra != 'kwonly':
         src = 'lambda %s**kw: body(%s_kw=kw)' % (''.join(a + ', ' for a in argnames), ''.join(a + ', ' for a in argnames))
     else:
         src = 'lambda %s: body(%s)' % (', '.join(argnames), ', '.join(argnames))
@@ -567,7 +570,7 @@ def _gen_op(o, g, f, cfg, cells, cols, models, rows_n, cell, spec_for):
         fn2 = g.choice(['rep', 'typename']) if (g.random() < 0.2 and fn != 'str2') else None
         if faulty and n and f.random() < 0.2:
             raise_at = f.randint(1, n * len(cs) * (2 if fn2 else 1))
-        return {'op': o, 't': t, 'fn': fn, 'fn2': fn2, 'cols': cs, 'other': other, 'raise_at': raise_at}
+        return {'op': o, 't': t, 'fn': fn, 'fn2': fn2, 'cols': cs, 'other': other, 'raise_at': raise_at, 'kwonly': bool(other is not None and g.random() < 0.4)}
     if o == 'minus':
         cs = g.sample(cols, g.randint(1, min(3, len(cols))))
         return {'op': o, 't': t, 'cols': cs, 'single': len(cs) == 1 and g.random() < 0.5}
@@ -634,7 +637,7 @@ def _gen_op(o, g, f, cfg, cells, cols, models, rows_n, cell, spec_for):
         ra = None
         if faulty and n and f.random() < 0.3:
             ra = f.randint(1, n)
-        return {'op': o, 't': t, 'fn': fn, 'args': g.sample(m.cols, ar), 'raise_at': ra, 'kwform': g.random() < 0.4}
+        return {'op': o, 't': t, 'fn': fn, 'args': g.sample(m.cols, ar), 'raise_at': ra, 'kwform': g.choice([False, False, True, True, 'kwonly'])}
     if o == 'iter_hold':
         if not n or not m.cols:
             return None
@@ -1468,7 +1471,7 @@ def real_apply(op, reals, dictable):
     if o == 'do':
         counter = [0]
         args = ['value'] + ([op['other']] if PURE[op['fn']][0] == 2 else [])
-        fn = make_callable(op['fn'], args, counter, op.get('raise_at'))
+        fn = make_callable(op['fn'], args, counter, op.get('raise_at'), 'kwonly' if op.get('kwonly') else None)
         if op.get('fn2'):
             return d.do([fn, make_callable(op['fn2'], ['value'], counter, op.get('raise_at'))], *op['cols'])
         return d.do(fn, *op['cols'])
@@ -1499,7 +1502,7 @@ def real_apply(op, reals, dictable):
         return d.exc(flt, **kw) if op.get('exc') else d.inc(flt, **kw)
     if o == 'apply':
         counter = [0]
-        extra = (set(dict.keys(d)) - set(op['args'])) if op.get('kwform') else None
+        extra = (set(dict.keys(d)) - set(op['args'])) if op.get('kwform') is True else 'kwonly' if op.get('kwform') == 'kwonly' else None
         return d[make_callable(op['fn'], op['args'], counter, op.get('raise_at'), extra)]
     if o == 'iter_hold':
         it = iter(d)
